@@ -747,8 +747,100 @@ def refusal_table():
     return rows
 
 
+H5_NODE_CREATORS = {"create_array", "create_carray", "create_earray", "create_vlarray", "create_table", "create_group"}
+
+
+def embed_table():
+    """where NeuroMLHdf5Writer.write stores the embedded top-level XML, and where NeuroMLHdf5Parser.parse reads the
+    XML it hands to read_neuroml2_string: rows (kind attr|node|unknown, name)"""
+    wfn = module("neuroml/writers.py").method("NeuroMLHdf5Writer", "write")
+    pfn = module("neuroml/hdf5/NeuroMLHdf5Parser.py").method("NeuroMLHdf5Parser", "parse")
+    if wfn is None or pfn is None:
+        raise Untranslatable("neuroml/writers.py:embed_table:0:writer or parser entry point not found")
+    # ---- writer: names that hold (something derived from) the serialised XML  sf.getvalue()
+    tainted = set()
+    changed = True
+    while changed:
+        changed = False
+        for n in ast.walk(wfn):
+            if isinstance(n, ast.Assign):
+                src = any(isinstance(c, ast.Call) and isinstance(c.func, ast.Attribute) and c.func.attr == "getvalue"
+                          for c in ast.walk(n.value)) or (names_in(n.value) & tainted)
+                if src:
+                    for t in n.targets:
+                        if isinstance(t, ast.Name) and t.id not in tainted:
+                            tainted.add(t.id)
+                            changed = True
+    stores = []
+
+    def uses(e):
+        return bool(names_in(e) & tainted) or any(isinstance(c, ast.Call) and isinstance(c.func, ast.Attribute)
+                                                  and c.func.attr == "getvalue" for c in ast.walk(e))
+
+    for n in ast.walk(wfn):
+        if isinstance(n, ast.Call) and isinstance(n.func, ast.Attribute):
+            args = list(n.args) + [k.value for k in n.keywords]
+            if not any(uses(a) for a in args):
+                continue
+            if n.func.attr in ("_f_setattr", "_v_attrs.__setattr__", "set_node_attr") and n.args:
+                nm = next((a.value for a in n.args if isinstance(a, ast.Constant) and isinstance(a.value, str)), None)
+                stores.append(["attr" if nm else "unknown", nm or dotted(n.func), n.lineno])
+            elif n.func.attr in H5_NODE_CREATORS:
+                nm = next((a.value for a in n.args[1:] if isinstance(a, ast.Constant) and isinstance(a.value, str)), None)
+                stores.append(["node" if nm else "unknown", nm or dotted(n.func), n.lineno])
+            elif root_name(n.func) in tainted or n.func.attr in ("encode", "getvalue", "write", "format", "join", "strip"):
+                continue  # a method of the string itself (its result is tainted through the assignment rule)
+            elif isinstance(n.func.value, ast.Name) and n.func.value.id in ("sf",):
+                continue
+            else:
+                stores.append(["unknown", dotted(n.func), n.lineno])
+        elif isinstance(n, ast.Assign) and uses(n.value):
+            for t in n.targets:
+                if isinstance(t, ast.Attribute) and "_v_attrs" in dotted(t):
+                    stores.append(["attr", t.attr, n.lineno])
+                elif isinstance(t, ast.Subscript) and "_v_attrs" in dotted(t.value):
+                    k = t.slice
+                    stores.append(["attr", k.value if isinstance(k, ast.Constant) else dotted(k), n.lineno])
+                elif not isinstance(t, ast.Name):
+                    stores.append(["unknown", dotted(t), n.lineno])
+    # ---- parser: what is handed to read_neuroml2_string
+    src_of = {}
+    for n in ast.walk(pfn):
+        if isinstance(n, ast.Assign) and len(n.targets) == 1 and isinstance(n.targets[0], ast.Name):
+            v = n.value
+            row = None
+            if isinstance(v, ast.Call) and dotted(v.func).split(".")[-1] == "get_str_attribute_group" and len(v.args) == 2 \
+                    and isinstance(v.args[1], ast.Constant):
+                row = ["attr", v.args[1].value, n.lineno]
+            elif isinstance(v, ast.Attribute) and "_v_attrs" in dotted(v):
+                row = ["attr", v.attr, n.lineno]
+            elif isinstance(v, ast.Call) and isinstance(v.func, ast.Attribute) and v.func.attr in ("read", "get_node", "decode", "tobytes"):
+                cs = [c.value for c in ast.walk(v) if isinstance(c, ast.Constant) and isinstance(c.value, str)]
+                attrs = [a.attr for a in ast.walk(v) if isinstance(a, ast.Attribute)]
+                row = ["node", cs[0].strip("/").split("/")[-1] if cs else (attrs[1] if len(attrs) > 1 else dotted(v)), n.lineno]
+            if row:
+                src_of.setdefault(n.targets[0].id, []).append(row)
+    reads = []
+    for n in ast.walk(pfn):
+        if isinstance(n, ast.Call) and dotted(n.func).split(".")[-1] == "read_neuroml2_string" and n.args:
+            a = n.args[0]
+            if isinstance(a, ast.Name) and a.id in src_of:
+                reads += [r for r in src_of[a.id] if r not in reads]
+            else:
+                reads.append(["unknown", dotted(a), n.lineno])
+    return {"stores": stores, "reads": reads}
+
+
 def main():
     out = {"entries": [], "untranslatable": [], "expected": [e[0] for e in ENTRIES]}
+    try:
+        out["embed"] = embed_table()
+    except Untranslatable as u:
+        out["embed"] = {"stores": [], "reads": []}
+        out["untranslatable"].append(str(u))
+    except (OSError, SyntaxError) as x:
+        out["embed"] = {"stores": [], "reads": []}
+        out["untranslatable"].append("neuroml/writers.py:embed_table:0:%s" % x)
     try:
         out["refusals"] = refusal_table()
     except Untranslatable as u:
